@@ -378,12 +378,12 @@ def surface_trim_tessellate(v1, v2, v3, v4, vidx, tidx, trims, tessellate_args):
                         t_min = isect[1]
                         uv_min = isect[2]
 
-                # Check uv for min max
+                # Check uv for min max: an intersection which is a round-off error away from a corner of the quad is the
+                # corner (the quad is a cell of the parametric domain whatever range the knot vectors are kept on)
                 for pi in range(2):
-                    if uv_min[pi] - tol <= 0.0 <= uv_min[pi] + tol:
-                        uv_min[pi] = 0.0
-                    elif uv_min[pi] - tol <= 1.0 <= uv_min[pi] + tol:
-                        uv_min[pi] = 1.0
+                    for corner in (v1.uv[pi], v3.uv[pi]):
+                        if abs(uv_min[pi] - corner) <= tol * abs(v3.uv[pi] - v1.uv[pi]):
+                            uv_min[pi] = corner
 
                 # Create a vertex with the minimum uv value
                 vert = Vertex()
